@@ -59,8 +59,10 @@ DEFECT_KEY_BOX = "c13:box-box:contact-distance-not-geomdistance"
 DEFECT_KEY_CCD = "c13:geomdist:ccd-coincident-centres-asymmetric"
 DEFECT_KEY_CYL = "c13:plane-cylinder:flat-disk-threshold"
 DEFECT_KEY_CAPBOX = "c13:capsule-box:axis-through-box-reported-separated"
-DEFECT_KEY_FLIP = "c13:direction:ccd-normal-flipped-within-margin"
-DEFECT_KEYS = (DEFECT_KEY, DEFECT_KEY_CAPS, DEFECT_KEY_BOX, DEFECT_KEY_CCD, DEFECT_KEY_CYL, DEFECT_KEY_CAPBOX, DEFECT_KEY_FLIP)
+DEFECT_KEY_BOXFACE = "c13:box-box:contact-distance-above-true-distance"
+DEFECT_KEYS = (DEFECT_KEY, DEFECT_KEY_CAPS, DEFECT_KEY_BOX, DEFECT_KEY_CCD, DEFECT_KEY_CYL, DEFECT_KEY_CAPBOX, DEFECT_KEY_BOXFACE)
+# information only (the property does not require a normal direction for native-CCD pairs): recorded in ctx.extra["observations"]
+OBS_CCD_FLIP = "ccd-normal-points-second-to-first-within-margin"
 
 PLANE, SPHERE, CAPSULE, ELLIPSOID, CYLINDER, BOX = (enums.E("mjGEOM_" + n) for n in
                                                     ("PLANE", "SPHERE", "CAPSULE", "ELLIPSOID", "CYLINDER", "BOX"))
@@ -437,6 +439,11 @@ class Dev:
         self.m = {}
         self.worst = {}
         self.cur = None
+        self.info = {}      # observations that are NOT failures: key -> [count, first op line, text]
+
+    def note(self, key, text):
+        e = self.info.setdefault(key, [0, self.cur, text])
+        e[0] += 1
 
     def see(self, key, dev, allowed):
         r = dev / allowed if allowed > 0 else (0.0 if dev == 0 else float("inf"))
@@ -515,6 +522,31 @@ def boxes_separated(g1, g2):
         if abs(dot(t, ax)) - ra - rb > 1e-6 * n:
             return True
     return False
+
+
+def sat_separation(g1, g2):
+    """largest separation of two boxes along the 15 SAT axes (what a SAT collider reports for disjoint boxes)"""
+    A = [col(g1["mat"], j) for j in range(3)]
+    B = [col(g2["mat"], j) for j in range(3)]
+    t = sub(g2["pos"], g1["pos"])
+    best = None
+    for ax in A + B + [cross(a, b) for a in A for b in B]:
+        n = norm(ax)
+        if n < 1e-9:
+            continue
+        ra = sum(g1["size"][j] * abs(dot(A[j], ax)) for j in range(3))
+        rb = sum(g2["size"][j] * abs(dot(B[j], ax)) for j in range(3))
+        sp = (abs(dot(t, ax)) - ra - rb) / n
+        best = sp if best is None or sp > best else best
+    return best
+
+
+def capsule_early_value(first, second):
+    """what the parallel branch of mjraw_CapsuleCapsule reports when it returns after the two end points of `first`"""
+    a1, a2 = col(first["mat"], 2), col(second["mat"], 2)
+    r = first["size"][0] + second["size"][0]
+    return min(point_seg(add(first["pos"], scl(a1, sg * first["size"][1])), second["pos"], a2, second["size"][1]) - r
+               for sg in (1.0, -1.0))
 
 
 def point_seg(x, c, a, ln):
@@ -615,9 +647,21 @@ def judge_scene(line, out, dev):
         ax1, ax2 = scl(col(g1["mat"], 2), g1["size"][1]), scl(col(g2["mat"], 2), g2["size"][1])
         ma, mb, mc = dot(ax1, ax1), -dot(ax1, ax2), dot(ax2, ax2)
         par_caps = abs(ma * mc - mb * mb) < MINVAL
-    cap_zone_contact = par_caps and capsule_early_return(g1, g2, mg)
-    cap_zone_gd = par_caps and (capsule_early_return(G[0], G[1], distmax) or capsule_early_return(G[1], G[0], distmax))
     CAPKEY, BOXKEY = DEFECT_KEY_CAPS, DEFECT_KEY_BOX
+    dmin = min((c["dist"] for c in cons), default=None)
+    # defect (2): the fold requires the collider's branch condition, the early-return condition AND the exact value that the
+    # early return produces (end points of the first capsule vs the second segment); anything else keeps its own key
+    cap_zone_contact = (par_caps and capsule_early_return(g1, g2, mg) and dmin is not None
+                        and abs(dmin - capsule_early_value(g1, g2)) <= TOL)
+    cap_zone_gd = False
+    if par_caps:
+        true_d = pair_distance(g1, g2)[0]
+        exp = []
+        for first, second in ((G[0], G[1]), (G[1], G[0])):
+            e = capsule_early_value(first, second) if capsule_early_return(first, second, distmax) else true_d
+            exp.append(min(e, distmax))
+        cap_zone_gd = ((capsule_early_return(G[0], G[1], distmax) or capsule_early_return(G[1], G[0], distmax))
+                       and abs(gd["d01"] - exp[0]) <= TOL and abs(gd["d10"] - exp[1]) <= TOL)
     cyl_zone = pair == (PLANE, CYLINDER) and norm(cross(col(g1["mat"], 2), col(g2["mat"], 2))) < 1e-7
     cyl_mark = len(fails)
     thru = None
@@ -628,7 +672,6 @@ def judge_scene(line, out, dev):
     an = None if illc else pair_distance(g1, g2)
     if pair == (BOX, BOX):
         an = (box_box_distance(g1, g2), False, TOL) if boxes_separated(g1, g2) else None
-    dmin = min((c["dist"] for c in cons), default=None)
     imin = min(range(len(cons)), key=lambda k: cons[k]["dist"]) if cons else None
     for ci, c in enumerate(cons):
         n = c["frame"][0:3]
@@ -684,11 +727,12 @@ def judge_scene(line, out, dev):
             cd = sub(g2["pos"], g1["pos"])
             if c["dist"] > 1e-6 or pair == (SPHERE, SPHERE):
                 if not dot(n, cd) > 0 and not exact:
-                    # mjc_Convex inflates both geoms by margin/2 and runs EPA on the shallow overlap of the inflated geoms; with
-                    # the native CCD (no mjc_fixNormal) some of the (multi-)contacts come back with an inverted normal
-                    fails.append((DEFECT_KEY_FLIP, "%s: separated pair within the margin (dist %.17g, margin+gap %.17g): contact %d of %d has "
-                                  "its normal pointing from the second geom to the first (n.(c2-c1) = %.3g)"
-                                  % (pname, c["dist"], mg, ci, len(cons), dot(n, cd))))
+                    # NOT a failure: the property asks for the first-to-second direction only for the analytically solvable
+                    # pairs.  Observation: mjc_Convex (native CCD, no mjc_fixNormal) returns some (multi-)contacts of a
+                    # separated pair within the margin with an inverted normal.
+                    dev.note(OBS_CCD_FLIP, "%s: separated pair within the margin (dist %.17g, margin+gap %.17g): contact %d of %d has "
+                             "its normal pointing from the second geom to the first (n.(c2-c1) = %.3g)"
+                             % (pname, c["dist"], mg, ci, len(cons), dot(n, cd)))
                 elif not dot(n, cd) > 0:
                     fails.append(("c13:direction:" + pname, "normal does not point from the first geom to the second (n.(c2-c1) = %.3g)" % dot(n, cd)))
         if pair == (PLANE, BOX):
@@ -725,7 +769,9 @@ def judge_scene(line, out, dev):
         fails.append((DEFECT_KEY_CCD, "%s with coincident centres: mj_geomDistance depends on the geom order (%.17g vs %.17g)"
                       % (pname, gd["d01"], gd["d10"])))
     if not ccd_pen:
-        chk("geomdist-sym", abs(gd["d01"] - gd["d10"]), gtol, "mj_geomDistance(g1,g2) != mj_geomDistance(g2,g1) (%.17g vs %.17g)" % (gd["d01"], gd["d10"]))
+        # (nearly parallel axes: the two call orders take differently conditioned paths, e.g. the parallel branch of
+        #  mjraw_CapsuleCapsule treats axes within ~1e-7 rad as parallel: 1e-6 instead of exact equality)
+        chk("geomdist-sym", abs(gd["d01"] - gd["d10"]), max(gtol, 1e-6) if illc else gtol, "mj_geomDistance(g1,g2) != mj_geomDistance(g2,g1) (%.17g vs %.17g)" % (gd["d01"], gd["d10"]))
     if an is not None and (an[1] or an[0] > 1e-6):
         for nm, dd in (("d01", gd["d01"]), ("d10", gd["d10"])):
             chk("geomdist-closedform", abs(dd - min(an[0], distmax)), an[2] if exact else TOL_CCD,
@@ -753,20 +799,37 @@ def judge_scene(line, out, dev):
             del fails[before:]
             fails.append((CAPKEY, "parallel capsules: mj_geomDistance %.17g differs from the smallest contact distance %.17g" % (gd["d01"], dmin)))
         elif len(fails) > before and pair == (BOX, BOX):
-            del fails[before:]
-            if dmin > 1e-6 or gd["d01"] > 1e-6:
-                fails.append((BOXKEY, "box-box within the margin: the contact distance of mjc_BoxBox (%.17g) is not the distance "
-                              "reported by mj_geomDistance (%.17g; exact polytope distance %s)" % (dmin, gd["d01"], an[0] if an else None)))
-            # penetrating box-box: SAT depth vs EPA depth of the native CCD belongs to C15
-    if cyl_zone and len(fails) > cyl_mark:
+            # only for disjoint boxes whose mj_geomDistance equals the exact polytope distance; the fold needs the signature
+            gd_ok = an is not None and abs(gd["d01"] - min(an[0], distmax)) <= 1e-5
+            if an is None:
+                del fails[before:]      # penetrating box-box: SAT depth vs EPA depth of the native CCD belongs to C15
+            elif gd_ok and dmin > 0 and dmin < gd["d01"] and abs(dmin - sat_separation(g1, g2)) <= TOL:
+                del fails[before:]
+                fails.append((BOXKEY, "disjoint boxes within the margin: mjc_BoxBox reports the separation along its best SAT axis "
+                              "(%.17g) instead of the distance (mj_geomDistance %.17g, exact polytope distance %.17g)"
+                              % (dmin, gd["d01"], an[0])))
+            elif gd_ok and dmin > gd["d01"]:
+                del fails[before:]
+                fails.append((DEFECT_KEY_BOXFACE, "disjoint boxes within the margin: the smallest contact distance of mjc_BoxBox (%.17g, "
+                              "%d contacts) is LARGER than the distance (mj_geomDistance %.17g, exact polytope distance %.17g; largest "
+                              "SAT separation %.17g)" % (dmin, len(cons), gd["d01"], an[0], sat_separation(g1, g2))))
+            # anything else keeps the generic key c13:geomdist-contact:box-box
+    # (the normalised noise vector is parallel to the normal only up to its own rounding: the shift is (0.1 .. 1] * radius)
+    cyl_eng = dmin if dmin is not None else gd["d01"]      # (the broad phase may drop the pair: then only mj_geomDistance shows it)
+    cyl_sig = (cyl_zone and an is not None and 0.1 * g2["size"][0] <= an[0] - cyl_eng <= g2["size"][0] + TOL)
+    if cyl_sig and len(fails) > cyl_mark:
         # cylinder axis along the plane normal: mjc_PlaneCylinder's test len_sqr >= mjMINVAL^2 lets rounding noise of length
-        # ~1e-15 through, normalises it and shifts the contact by a full radius
+        # ~1e-15 through, normalises it and shifts the contact by (almost) a full radius.  Signature: closed form - smallest
+        # contact distance in (0.1, 1] * radius; only the distance / witness / fromto consequences are folded, everything else keeps its key
+        folded = (":distance:", ":witness", ":geomdist-closedform:", ":geomdist-from:", ":geomdist-to:", ":geomdist-len:", ":spurious:")
+        keep = [f for f in fails[cyl_mark:] if not any(t in f[0] for t in folded)]
         del fails[cyl_mark:]
+        fails.extend(keep)
         fails.append((DEFECT_KEY_CYL, "plane-cylinder with the cylinder axis along the plane normal: contact distance %s, closed form %s "
-                      "(off by the cylinder radius %.17g)" % (dmin, an[0] if an else None, g2["size"][0])))
+                      "(shifted by up to the cylinder radius %.17g)" % (cyl_eng, an[0] if an else None, g2["size"][0])))
     # a capsule whose axis passes through the box / cylinder certainly penetrates it
     # (capsule-cylinder goes through the native CCD, which returns nothing for coincident centres: degenerate start, C15)
-    if capbox_zone:
+    if capbox_zone and (dmin is None or dmin > 1e-9):
         # the collider's answer is not about the real configuration: witness / direction findings are part of the same defect
         fails[:] = [f for f in fails if not any(t in f[0] for t in (":witness", ":geomdist-from", ":geomdist-to", ":geomdist-len", ":direction"))]
     if thru is not None and not (pair == (CAPSULE, CYLINDER) and (degen or illc)):
@@ -973,6 +1036,7 @@ def run(ctx):
     ctx.extra["oracle_failing_ops"] = nfail
     ctx.extra["oracle_failures_by_key"] = bykey
     ctx.extra["genuine_defect_keys"] = list(DEFECT_KEYS)
+    ctx.extra["observations"] = {k: {"count": v[0], "first_op": v[1], "what": v[2]} for k, v in dev.info.items()}
     ctx.extra["oracle_input_classes"] = hist
     ctx.extra["oracle_max_deviation_over_allowed"] = {k: float("%.3g" % v) for k, v in sorted(dev.m.items())}
     for l, meta in items[:3]:
